@@ -5,7 +5,7 @@ use std::collections::{BTreeMap, BTreeSet};
 
 use super::*;
 use crate::ctx::Actor;
-use crate::engine::Outcome;
+use crate::outcome::Outcome;
 
 /// C03: exactly-once delivery against the connection table.
 pub fn conservation(case: &Case, h: &Hist) -> Vec<Violation> {
